@@ -201,6 +201,14 @@ func (in *Interp) concrete(t *Term, what string) int {
 	return int(sext(in.ex.concretize(t, what), t.w))
 }
 
+// concreteIdx concretises an index/length operand honouring the signedness of its Go type.
+func (in *Interp) concreteIdx(v ssa.Value, t *Term, what string) int {
+	if t.w < 64 && !isSigned(v.Type()) {
+		t = Zext(t, 64)
+	}
+	return in.concrete(t, what)
+}
+
 func (in *Interp) call(fn *ssa.Function, args []Value, env []Value) Value {
 	if r, ok := in.intrinsic(fn, args); ok {
 		return r
@@ -679,7 +687,7 @@ func (in *Interp) eval(fr *frame, v ssa.Value) Value {
 	case *ssa.Field:
 		return copyVal(in.get(fr, x.X).(Struct)[x.Field])
 	case *ssa.IndexAddr:
-		idx := in.concrete(in.get(fr, x.Index).(*Term), "index at "+in.pos(x))
+		idx := in.concreteIdx(x.Index, in.get(fr, x.Index).(*Term), "index at "+in.pos(x))
 		switch s := in.get(fr, x.X).(type) {
 		case Slice:
 			if idx < 0 || idx >= len(s) {
@@ -697,7 +705,7 @@ func (in *Interp) eval(fr *frame, v ssa.Value) Value {
 			return &a[idx]
 		}
 	case *ssa.Index:
-		idx := in.concrete(in.get(fr, x.Index).(*Term), "index at "+in.pos(x))
+		idx := in.concreteIdx(x.Index, in.get(fr, x.Index).(*Term), "index at "+in.pos(x))
 		switch s := in.get(fr, x.X).(type) {
 		case Str:
 			if idx < 0 || idx >= len(s.b) {
@@ -713,7 +721,7 @@ func (in *Interp) eval(fr *frame, v ssa.Value) Value {
 	case *ssa.Lookup:
 		switch s := in.get(fr, x.X).(type) {
 		case Str:
-			idx := in.concrete(in.get(fr, x.Index).(*Term), "index at "+in.pos(x))
+			idx := in.concreteIdx(x.Index, in.get(fr, x.Index).(*Term), "index at "+in.pos(x))
 			if idx < 0 || idx >= len(s.b) {
 				panic(goPanic{fmt.Sprintf("index out of range [%d] with length %d at %s", idx, len(s.b), in.pos(x))})
 			}
@@ -847,16 +855,16 @@ func (in *Interp) typeAssert(x *ssa.TypeAssert, i Iface) Value {
 func (in *Interp) slice(fr *frame, x *ssa.Slice) Value {
 	lo, hi, mx := 0, -1, -1
 	if x.Low != nil {
-		lo = in.concrete(in.get(fr, x.Low).(*Term), "slice lo at "+in.pos(x))
+		lo = in.concreteIdx(x.Low, in.get(fr, x.Low).(*Term), "slice lo at "+in.pos(x))
 	}
 	if x.High != nil {
-		hi = in.concrete(in.get(fr, x.High).(*Term), "slice hi at "+in.pos(x))
+		hi = in.concreteIdx(x.High, in.get(fr, x.High).(*Term), "slice hi at "+in.pos(x))
 		if hi < 0 {
 			panic(goPanic{fmt.Sprintf("slice bounds out of range [:%d] at %s", hi, in.pos(x))})
 		}
 	}
 	if x.Max != nil {
-		mx = in.concrete(in.get(fr, x.Max).(*Term), "slice max at "+in.pos(x))
+		mx = in.concreteIdx(x.Max, in.get(fr, x.Max).(*Term), "slice max at "+in.pos(x))
 		if mx < 0 {
 			panic(goPanic{fmt.Sprintf("slice bounds out of range [::%d] at %s", mx, in.pos(x))})
 		}
